@@ -1,6 +1,8 @@
 package main
 
 import (
+	"go/token"
+	"sort"
 	"fmt"
 	"go/types"
 	"strings"
@@ -130,6 +132,7 @@ func (x *Exec) invoke(st *State, fr *Frame, in ssa.Instruction, cc *ssa.CallComm
 		return
 	}
 	// unknown dynamic type: interface contract or havoc
+	x.assertBeforeCall(st, fr, in, cc.Method.Name(), append([]Val{recv}, args...))
 	name := types.TypeString(cc.Value.Type(), func(p *types.Package) string { return "" }) + "." + cc.Method.Name()
 	if m := x.ifaceModel(name); m != nil {
 		m(x, st, fr, in, cc, recv, args, k)
@@ -139,7 +142,8 @@ func (x *Exec) invoke(st *State, fr *Frame, in ssa.Instruction, cc *ssa.CallComm
 		x.applyIfaceContract(st, fr, in, cc, c, name, recv, args, k)
 		return
 	}
-	x.trusted["interface method "+name+": results unconstrained, no effect on tracked memory"] = true
+	x.trusted["interface method "+name+" (no contract): results unconstrained; objects passed to it by pointer, map or slice may be rewritten (one level), nothing else"] = true
+	x.havocArgObjects(st, fr, in, args, nil)
 	sig := cc.Signature()
 	res := x.havocResults(st, "r_"+sanitize(cc.Method.Name()), sig)
 	x.seqCtr++
@@ -158,6 +162,7 @@ func (x *Exec) callStatic(st *State, fr *Frame, in ssa.Instruction, fn *ssa.Func
 	if fn.Origin() != nil {
 		full = fn.Origin().String()
 	}
+	x.assertBeforeCall(st, fr, in, fn.Name(), args)
 	if m := x.model(full); m != nil {
 		m(x, st, fr, in, fn, args, func(st2 *State, res Val) {
 			x.seqCtr++
@@ -178,12 +183,16 @@ func (x *Exec) callStatic(st *State, fr *Frame, in ssa.Instruction, fn *ssa.Func
 		}
 	}
 	if modular {
-		x.assertBeforeCall(st, fr, in, fn, args)
 		x.applyContract(st, fr, in, fn, c, bind, args, k)
 		return
 	}
 	if fn.Blocks == nil {
-		x.trusted["external function "+full+": results unconstrained, no effect on tracked memory"] = true
+		// A function whose body is not loaded may write through what it is handed: every object passed
+		// to it directly by pointer, map or slice (also inside an interface value) is havocked, and the
+		// write must be allowed by the caller's frame. Objects reachable only through fields are assumed
+		// untouched (listed).
+		x.trusted["external function "+full+": results unconstrained; objects passed to it by pointer, map or slice may be rewritten (one level), nothing else"] = true
+		x.havocArgObjects(st, fr, in, args, nil)
 		res := x.havocResults(st, "r_"+sanitize(fn.Name()), fn.Signature)
 		x.seqCtr++
 		st.trace = append(st.trace, &CallEvent{Callee: traceName(fn), Args: args, Res: unpack(res), Seq: x.seqCtr})
@@ -193,7 +202,6 @@ func (x *Exec) callStatic(st *State, fr *Frame, in ssa.Instruction, fn *ssa.Func
 	if fr != nil && fr.depth >= x.inlineMax {
 		bail("inline depth exceeded at %s", full)
 	}
-	x.assertBeforeCall(st, fr, in, fn, args)
 	x.execFunction(st, fn, bind, args, fr, nil, func(st2 *State, res []Val, panicked bool) {
 		if panicked {
 			return
@@ -202,12 +210,13 @@ func (x *Exec) callStatic(st *State, fr *Frame, in ssa.Instruction, fn *ssa.Func
 	})
 }
 
-// assertBeforeCall emits `assert before call NAME#k` obligations of the enclosing contracts.
-func (x *Exec) assertBeforeCall(st *State, fr *Frame, in ssa.Instruction, fn *ssa.Function, args []Val) {
-	if fr == nil || in == nil {
+// assertBeforeCall emits `assert before call NAME#k` obligations of the enclosing contract. It is
+// called for every call instruction whatever the callee is (function under contract, inlined,
+// external without body, library model, interface method), keyed by the callee's plain name.
+func (x *Exec) assertBeforeCall(st *State, fr *Frame, in ssa.Instruction, name string, args []Val) {
+	if fr == nil || in == nil || x.pureEval > 0 {
 		return
 	}
-	name := fn.Name()
 	if fr.contract == nil {
 		return
 	}
@@ -220,12 +229,15 @@ func (x *Exec) assertBeforeCall(st *State, fr *Frame, in ssa.Instruction, fn *ss
 	if !has {
 		return
 	}
-	fr.callOrd[name]++
-	ord := fr.callOrd[name]
+	ord := x.staticCallOrd(fr.fn, in, name)
 	for _, c := range fr.contract.Clauses {
 		if c.Kind != "assert" || c.Callee != name || c.Ord != ord || !clauseActive(c, x.active) {
 			continue
 		}
+		if x.assertSeen == nil {
+			x.assertSeen = map[*Clause]bool{}
+		}
+		x.assertSeen[c] = true
 		env := x.newEnv(st, fr.entry, fr)
 		for i, a := range args {
 			env.vars[fmt.Sprintf("arg%d", i)] = a
@@ -801,4 +813,114 @@ func keysOf(m map[string]string) map[string]bool {
 		o[k] = true
 	}
 	return o
+}
+
+// argRef returns the reference term of the object a value designates (pointer, map, slice backing
+// array, or one of those inside an interface value), or "" for a value without identity.
+func (x *Exec) argRef(st *State, v Val) string {
+	switch t := v.(type) {
+	case *Iface:
+		if t == nil || t.V == nil {
+			return ""
+		}
+		switch t.Dyn.Underlying().(type) {
+		case *types.Pointer, *types.Map, *types.Slice:
+			return x.argRef(st, t.V)
+		}
+		return ""
+	case Term:
+		if t.T == nil {
+			return ""
+		}
+		switch t.T.Underlying().(type) {
+		case *types.Pointer, *types.Map:
+			return t.S
+		case *types.Slice:
+			return app("s_arr", t.S)
+		}
+	case *Place:
+		if s, ok := x.placeTerm(t); ok {
+			return s
+		}
+	}
+	return ""
+}
+
+// havocArgObjects havocs the objects designated by args (only those whose index is in only, when
+// only != nil); each such write is checked against the caller's frame.
+func (x *Exec) havocArgObjects(st *State, fr *Frame, in ssa.Instruction, args []Val, only map[int]bool) {
+	var mods []string
+	for i, a := range args {
+		if only != nil && !only[i] {
+			continue
+		}
+		if r := x.argRef(st, a); r != "" && r != "0" {
+			mods = append(mods, r)
+		}
+	}
+	if len(mods) == 0 {
+		return
+	}
+	for _, m := range mods {
+		x.frameCheck(st, fr, m, in)
+	}
+	oldAlloc := st.allocCtr
+	newAlloc := x.declare(st, "alloc", "Int")
+	x.assume(st, app(">=", newAlloc, oldAlloc))
+	st.allocCtr = newAlloc
+	for _, n := range sortedKeys(keysOf(st.heap)) {
+		x.havocArray(st, n, oldAlloc, mods)
+	}
+}
+
+// staticCallOrd numbers the call sites of `name` inside fn in source order (1-based): the k in
+// `assert before call NAME#k` denotes a place in the source, not the k-th call executed on a path.
+func (x *Exec) staticCallOrd(fn *ssa.Function, in ssa.Instruction, name string) int {
+	if x.callOrds == nil {
+		x.callOrds = map[*ssa.Function]map[ssa.Instruction]int{}
+	}
+	m, ok := x.callOrds[fn]
+	if !ok {
+		m = map[ssa.Instruction]int{}
+		type site struct {
+			in   ssa.Instruction
+			name string
+			pos  token.Pos
+			seq  int
+		}
+		var sites []site
+		seq := 0
+		for _, b := range fn.Blocks {
+			for _, ins := range b.Instrs {
+				ci, ok := ins.(ssa.CallInstruction)
+				if !ok {
+					continue
+				}
+				cc := ci.Common()
+				n := ""
+				if cc.IsInvoke() {
+					n = cc.Method.Name()
+				} else if sc := cc.StaticCallee(); sc != nil {
+					n = sc.Name()
+				} else {
+					continue
+				}
+				seq++
+				sites = append(sites, site{ins, n, ins.Pos(), seq})
+			}
+		}
+		sort.SliceStable(sites, func(i, j int) bool {
+			if sites[i].pos != sites[j].pos {
+				return sites[i].pos < sites[j].pos
+			}
+			return sites[i].seq < sites[j].seq
+		})
+		cnt := map[string]int{}
+		for _, s := range sites {
+			cnt[s.name]++
+			m[s.in] = cnt[s.name]
+		}
+		x.callOrds[fn] = m
+	}
+	return m[in]
 }
